@@ -90,8 +90,8 @@ def drive_session(ctx, tier, n_cases=None):
                     r = None
                 else:
                     r = a.replace(sources=dict(a.sources)) if rnd.random() < 0.5 else None
-            except ValueError:
-                r = None
+            except Exception:
+                r = None        # outcomes, other exception types included, are the monitors' business
             ctx.count('driver.session_steps')
             if r is not None and rnd.random() < 0.25:
                 live[rnd.randrange(len(live))] = r
